@@ -257,6 +257,10 @@ class C03(Check):
                 res['discard'] = 'fault point beyond last evaluation'
             return res
         E = rec.events
+        if cfg['precision'] == 'float64' and rec.lossy_time():
+            V('L-clock', 'silent', 'time-precision', f'float64 model: the time argument reached the generated function as '
+                                                     f'{rec.lossy_time()} (solver={cfg["solver"]}, backend={cfg["backend"]})')
+            return res
         dt, m, T, dts = cfg['dt'], cfg['m'], cfg['T'], cfg['dts']
         steps = int(round(T / dt))
         fdt = np.dtype(cfg['precision'])
